@@ -10,9 +10,11 @@
     larger than the terminal, empty tables / columns / groups, ...) are rendered (render_lines, print) and measured at
     every width 1..12 and a ladder to 200; TLC's verdict is `outcome = "ok"` for every width >= 1.
 Python only runs the code and names the exception class; TLC decides."""
+import hashlib
 import io
 import json
 import os
+import re
 import signal
 import traceback
 
@@ -22,6 +24,7 @@ from engine.harness import Check
 DOCUMENTED = ["ColorParseError", "StyleSyntaxError", "MissingStyle", "MarkupError"]
 ENTRY_ORDER = ["color", "style", "get", "getd", "markup", "printm", "decode", "text", "print"]
 WIDTHS = list(range(1, 13)) + [18, 28, 43, 66, 100, 150, 200]
+_W = {}
 ACTIONS = ["ColorOk", "ColorErr", "StyleOk", "StyleErr", "GetOk", "GetMissing", "GetdOk", "MarkupOk", "MarkupErr",
            "PrintmOk", "PrintmErr", "DecodeOk", "TextOk", "PrintOk"]
 
@@ -76,8 +79,9 @@ def describe(e, doc):
     tb = traceback.extract_tb(e.__traceback__)
     fr = tb[-1] if tb else None
     where = "%s.%s" % (os.path.basename(fr.filename)[:-3], fr.name) if fr else "?"
+    words = "".join(c if c.isalpha() else " " for c in re.sub(r"'[^']*'|\"[^\"]*\"", " ", str(e)[:300])).split()
     return dict(out=type(e).__name__[:24], isa=[n for n, cls in doc.items() if isinstance(e, cls)], where=where,
-                msg=("%s: %s" % (type(e).__name__, e))[:160], line=fr.lineno if fr else 0)
+                msg=("%s: %s" % (type(e).__name__, e))[:160], line=fr.lineno if fr else 0, mclass="-".join(words[:3]).lower())
 
 
 class _deadline:
@@ -116,29 +120,80 @@ def mc_cfg(b, emit=True):
 
 
 def enumerate_inputs(chk):
-    """M1 + M2 in one run: invariants + per-action coverage, and every state printed as JSON"""
+    """M1: MC_Parsers.cfg (small bounds) with -coverage: every (entry, predicted class) action fires, grammar invariants hold.
+    M1+M2: the same module at the tier's bounds, invariants on, every state printed as JSON.  The two runs overlap."""
+    from concurrent.futures import ThreadPoolExecutor
     bounds = chk.pick(
-        dict(LColor=3, LStyle=3, LGet=3, LGetd=3, LMarkup=3, LPrintm=3, LDecode=3, LText=2, LPrint=2, CtxCut=0),
-        dict(LColor=5, LStyle=5, LGet=4, LGetd=3, LMarkup=5, LPrintm=3, LDecode=5, LText=3, LPrint=3, CtxCut=1))
-    r, cov, missing = tlc.model_check("MC_Parsers", cfg_text=mc_cfg(bounds), require_actions=ACTIONS, timeout=3000, heap="8g")
+        dict(LColor=4, LStyle=4, LGet=3, LGetd=3, LMarkup=4, LPrintm=3, LDecode=3, LText=2, LPrint=2, CtxCut=1),
+        dict(LColor=5, LStyle=5, LGet=4, LGetd=3, LMarkup=5, LPrintm=4, LDecode=4, LText=3, LPrint=3, CtxCut=1))
+    with ThreadPoolExecutor(2) as ex:
+        f1 = ex.submit(tlc.model_check, "MC_Parsers", cfg="MC_Parsers", require_actions=ACTIONS, timeout=1800, workers=4, tag="c14cov")
+        f2 = ex.submit(tlc.model_check, "MC_Parsers", cfg_text=mc_cfg(bounds), coverage=False, timeout=3400, heap="8g", tag="c14gen")
+        r1, cov, missing = f1.result()
+        r, _, _ = f2.result()
+    chk.add_tlc(r1, "M1-coverage")
     chk.add_tlc(r, "M1+M2")
-    if r.violated or missing or not r.finished:
-        raise tlc.TLCFailure("MC_Parsers: violated=%s never-fired=%s finished=%s\n%s" % (r.violated, missing, r.finished, r.out[-2500:]))
+    for x in (r1, r):
+        if x.violated or not x.finished:
+            raise tlc.TLCFailure("MC_Parsers: violated=%s finished=%s\n%s" % (x.violated, x.finished, x.out[-2500:]))
+    if missing:
+        raise tlc.TLCFailure("MC_Parsers: actions never fired: %s" % missing)
     chk.notes["m1_action_coverage"] = {k: v[1] for k, v in cov.items() if k in ACTIONS}
     chk.notes["bounds"] = bounds
     toktable, inputs = None, []
     for line in r.out.splitlines():
-        if '\\"beh\\"' in line or '\\"toktable\\"' in line:
-            o = json.loads(json.loads(line.strip()))
-            if "toktable" in o:
-                toktable = ["".join(map(chr, t)) for t in o["toktable"]]
-            else:
-                b = o["beh"]
-                inputs.append((b["e"], b["c"], b["t"]))
+        if line.startswith('"{\\"beh\\"'):
+            b = json.loads(json.loads(line))["beh"]
+            inputs.append((b["e"], b["c"], b["t"]))
+        elif line.startswith('"{\\"toktable\\"'):
+            toktable = ["".join(map(chr, t)) for t in json.loads(json.loads(line))["toktable"]]
+    r.out = r.out[-4000:]
     if toktable is None or len(inputs) != r.distinct:
         raise tlc.TLCFailure("MC_Parsers emitted %d inputs for %d states (token table: %s)" % (len(inputs), r.distinct, toktable is not None))
     inputs.sort(key=lambda x: (ENTRY_ORDER.index(x[0]), len(x[2]), x[2], x[1]))
     return toktable, inputs
+
+
+def _replay_chunk(arg):
+    toktable, chunk = arg
+    R = _W.get("R")
+    if R is None:
+        R = _W["R"] = Real()
+    out = []
+    for entry, ctx, ids in chunk:
+        out.append(R.observe(entry, "".join(toktable[i - 1] for i in ids)))
+    return out
+
+
+def _observe_chunk(chunk):
+    R = _W.get("R")
+    if R is None:
+        R = _W["R"] = Real()
+    return [R.observe(e, s) for e, s in chunk]
+
+
+def observe_many(R, pairs):
+    if len(pairs) < 4000:
+        return [R.observe(e, s) for e, s in pairs]
+    import multiprocessing as mp
+    nproc = min(12, os.cpu_count() or 2)
+    chunks = [pairs[i:i + 900] for i in range(0, len(pairs), 900)]
+    with mp.get_context("fork").Pool(nproc) as pool:
+        parts = pool.map(_observe_chunk, chunks, chunksize=1)
+    return [o for p in parts for o in p]
+
+
+def replay_inputs(R, toktable, inputs):
+    """observations aligned with inputs; large batches go through a pool of forked workers (pure function of the input)"""
+    if len(inputs) < 60000:
+        return [R.observe(e, "".join(toktable[i - 1] for i in ids)) for e, _c, ids in inputs]
+    import multiprocessing as mp
+    nproc = min(12, os.cpu_count() or 2)
+    size = 5000
+    chunks = [(toktable, inputs[i:i + size]) for i in range(0, len(inputs), size)]
+    with mp.get_context("fork").Pool(nproc) as pool:
+        parts = pool.map(_replay_chunk, chunks, chunksize=1)
+    return [o for p in parts for o in p]
 
 
 # ---- (2) random Unicode ------------------------------------------------------------------------------------
@@ -284,9 +339,6 @@ def boundary_trees(G):
     return out
 
 
-_W = {}
-
-
 def _tree_worker(arg):
     """one tree at every width: -> (record for TLC, [details of the non-ok outcomes])"""
     tree, widths = arg
@@ -341,7 +393,12 @@ def run_trees(jobs):
 
 
 def tree_signature(tree, d):
-    return "tree raised %s top=%s op=%s at=%s" % (d["out"], tree["k"], d["op"], d["where"])
+    return "tree raised %s top=%s at=%s" % (d["out"], tree["k"], d["where"])
+
+
+def tree_key(d):
+    """what a reduction must preserve: the exception class and the raising frame (the top kind may shrink away)"""
+    return "%s at=%s" % (d["out"], d["where"])
 
 
 # ---- judging ------------------------------------------------------------------------------------------------------
@@ -357,12 +414,14 @@ def judge(chk, tables, recs, label):
 
 
 def parser_signature(entry, obs):
-    return "undocumented %s entry=%s at=%s" % (obs["out"], entry, obs["where"])
+    """exception class + entry + raising frame (+ first words of the message for exceptions outside Rich's documented classes)"""
+    sig = "undocumented %s entry=%s at=%s" % (obs["out"], entry, obs["where"])
+    return sig if obs["isa"] else sig + " msg=" + obs.get("mclass", "")
 
 
 def ddmin_strings(chk, real_tables, R, open_cases):
     """open_cases: sig -> (entry, string).  Every round is ONE TLC batch of candidate reductions for all cases."""
-    for _ in range(40):
+    for _ in range(chk.pick(14, 40)):
         cands = []
         for sig, (entry, s) in open_cases.items():
             n = len(s)
@@ -431,7 +490,7 @@ def run(chk: Check):
                 "(2) seeded random Unicode strings (26 syntax templates x chunks of astral, control, combining, RTL+bidi, digits of 15 scripts "
                 "and No/Nl numerics, Unicode blanks, case-mapping oddities, any code point, 4301..6000-character runs) to all 9 entry points; "
                 "(3) random trees of built-in renderables (layout_gen: text panel padding align constrain styled group table columns tree rule "
-                "bar progressbar, nesting <= 4) + option stress + hand-listed boundary recipes, each rendered with render_lines, printed and "
+                "bar progressbar, nesting <= 4; its user-defined wrapper kinds are unwrapped) + option stress + hand-listed boundary recipes, each rendered with render_lines, printed and "
                 "measured at W = 1..12, 18, 28, 43, 66, 100, 150, 200.  evaluation = one (entry, input) call or one tree at all widths; "
                 "non-trivial = non-empty input / tree with a container")
     chk.trusted = ["drivers/c14.py:describe (exception -> class name, isinstance facts for the four documented classes, raising frame)",
@@ -444,56 +503,68 @@ def run(chk: Check):
     if chk.replay_only:
         return replay(chk, R, tables, G)
 
+    parts = os.environ.get("VERIF_C14_PARTS", "tokens,random,trees").split(",")      # development aid; the default runs everything
+    chk.notes["parts_run"] = parts
+    if "tokens" not in parts and "random" not in parts:
+        return trees_main(chk, tables, G)
     # ---- (1) ------------------------------------------------------------------------------------------------------
     toktable, inputs = enumerate_inputs(chk)
+    if "tokens" not in parts:
+        inputs = inputs[:50]
     chk.mark("tlc-enumerate")
-    recs, meta = [], []
-    hist = {}
-    for entry, ctx, ids in inputs:
-        s = "".join(toktable[i - 1] for i in ids)
-        o = R.observe(entry, s)
-        recs.append(dict(k="p", e=entry, t=ids, out=o["out"], isa=o["isa"]))
-        meta.append((entry, ids, s, o))
-        hist.setdefault(entry, {}).setdefault(o["out"], 0)
-        hist[entry][o["out"]] += 1
-        chk.case("%s:%s" % (entry, ids), bool(ids))
     chk.notes["token_inputs"] = dict(total=len(inputs), per_entry={e: sum(1 for x in inputs if x[0] == e) for e in ENTRY_ORDER})
+    hist, firsts, ndrift = {}, {}, 0
+    BLOCK = 400000
+    for b0 in range(0, len(inputs), BLOCK):
+        block = inputs[b0:b0 + BLOCK]
+        obs = replay_inputs(R, toktable, block)
+        recs = [dict(k="p", e=e, t=ids, out=o["out"], isa=o["isa"]) for (e, _c, ids), o in zip(block, obs)]
+        verdicts = judge(chk, tables, recs, "M3-tokens")
+        del recs
+        for (entry, _c, ids), o, v in zip(block, obs, verdicts):
+            h = hist.setdefault(entry, {})
+            h[o["out"]] = h.get(o["out"], 0) + 1
+            chk.case("%s:%s" % (entry, ids), bool(ids))
+            if v == "ok":
+                continue
+            s = "".join(toktable[i - 1] for i in ids)
+            if v.startswith("ok drift"):
+                ndrift += 1
+                chk.drift_note("%s(%r): observed %s, grammar %s" % (entry, s, o["out"], v.split("pred=")[-1]))
+                continue
+            sig = parser_signature(entry, o)
+            if sig not in firsts:        # inputs are sorted by length: the first one is a minimal witness
+                firsts[sig] = True
+                chk.reject(sig, "%s; %s(%r) -> %s" % (v, entry, s, o["msg"]), dict(kind="tokens", entry=entry, tokens=ids, cps=[ord(c) for c in s]))
+            else:
+                chk.reject(sig, v, None)
+        if b0 == 0:
+            for i in (1, len(block) // 2, len(block) - 1):
+                chk.sample(dict(entry=block[i][0], tokens=block[i][2], text="".join(toktable[j - 1] for j in block[i][2]), outcome=obs[i]["out"]))
     chk.notes["observed_outcomes_tokens"] = hist
-    chk.mark("replay-tokens")
-    verdicts = judge(chk, tables, recs, "M3-tokens")
-    chk.mark("judge-tokens")
-    ndrift = 0
-    firsts = {}
-    for (entry, ids, s, o), v in zip(meta, verdicts):
-        if v == "ok":
-            continue
-        if v.startswith("ok drift"):
-            ndrift += 1
-            chk.drift_note("%s(%r): observed %s, grammar %s" % (entry, s, o["out"], v.split("pred=")[-1]))
-            continue
-        sig = parser_signature(entry, o)
-        if sig not in firsts:        # inputs are sorted by length: the first one is a minimal witness
-            firsts[sig] = True
-            chk.reject(sig, "%s; %s(%r) -> %s" % (v, entry, s, o["msg"]), dict(kind="tokens", entry=entry, tokens=ids, cps=[ord(c) for c in s]))
-        else:
-            chk.reject(sig, v, None)
     chk.notes["drift_token_inputs"] = ndrift
-    for m in (meta[1], meta[len(meta) // 2], meta[-1]):
-        chk.sample(dict(entry=m[0], tokens=m[1], text=m[2], outcome=m[3]["out"]))
+    chk.mark("replay+judge-tokens")
 
     # ---- (2) ------------------------------------------------------------------------------------------------------
+    if "random" in parts:
+        random_part(chk, R, tables, toktable)
+    if "trees" in parts:
+        trees_main(chk, tables, G)
+
+
+def random_part(chk, R, tables, toktable):
     nstr = chk.pick(2500, 40000)
+    strings = [rand_string(chk.rng, toktable) for _ in range(nstr)]
+    pairs = [(entry, s) for s, _shape in strings for entry in ENTRY_ORDER]
+    obs = observe_many(R, pairs)
     recs, meta = [], []
     hist = {}
-    for _ in range(nstr):
-        s, shape = rand_string(chk.rng, toktable)
-        for entry in ENTRY_ORDER:
-            o = R.observe(entry, s)
-            recs.append(dict(k="r", e=entry, out=o["out"], isa=o["isa"]))
-            meta.append((entry, s, shape, o))
-            hist.setdefault(entry, {}).setdefault(o["out"], 0)
-            hist[entry][o["out"]] += 1
-            chk.case("r:%s:%s" % (entry, s), bool(s))
+    for (entry, s), o, shape in zip(pairs, obs, (sh for _s, sh in strings for _ in ENTRY_ORDER)):
+        recs.append(dict(k="r", e=entry, out=o["out"], isa=o["isa"]))
+        meta.append((entry, s, shape, o))
+        h = hist.setdefault(entry, {})
+        h[o["out"]] = h.get(o["out"], 0) + 1
+        chk.case("r:%s:%s" % (entry, s if len(s) < 80 else hashlib.sha1(s.encode("utf8", "surrogatepass")).hexdigest()), bool(s))
     chk.notes["random_strings"] = nstr
     chk.notes["observed_outcomes_random"] = hist
     chk.mark("replay-random")
@@ -512,16 +583,30 @@ def run(chk: Check):
         for sig, (entry, s) in sorted(open_cases.items()):
             o = R.observe(entry, s)
             for _ in range(count[sig]):
-                chk.reject(sig, "undocumented %s from %s; minimal random witness %s(%r) [shape %s] -> %s" % (o["out"], entry, entry, s, shape_of(s), o["msg"]),
+                shown = repr(s) if len(s) <= 80 else "%r...(%d characters)" % (s[:40], len(s))
+                chk.reject(sig, "undocumented %s from %s; minimal random witness %s(%s) [shape %s] -> %s" % (o["out"], entry, entry, shown, shape_of(s), o["msg"]),
                            dict(kind="string", entry=entry, cps=[ord(c) for c in s]))
     chk.mark("minimise-random")
     chk.sample(dict(entry=meta[-1][0], random_string=meta[-1][1][:60], shape=meta[-1][2], outcome=meta[-1][3]["out"]))
 
-    # ---- (3) ------------------------------------------------------------------------------------------------------
+
+
+def builtin_only(t):
+    """layout_gen's protocol-only wrappers (`cast`, `opaque`: user-defined classes) are no built-in renderables: unwrap them"""
+    if isinstance(t, dict):
+        while t.get("k") in ("cast", "opaque"):
+            t = t["c"]
+        return {k: builtin_only(v) for k, v in t.items()}
+    if isinstance(t, list):
+        return [builtin_only(x) for x in t]
+    return t
+
+
+def trees_main(chk, tables, G):
     trees = boundary_trees(G)
     nb = len(trees)
     for i in range(chk.pick(260, 7000)):
-        t = G.gen(chk.rng, 4)
+        t = builtin_only(G.gen(chk.rng, 4))
         if i % 2:
             t = stress(chk.rng, t, G)
         trees.append(t)
@@ -543,40 +628,40 @@ def tree_part(chk, tables, G, trees, widths=None):
             kinds[k] = kinds.get(k, 0) + 1
         if v == "ok":
             continue
-        # TLC names the first failing (W, op); every distinct failing clause of the tree is reported under its own signature
+        # TLC names the first failing (W, op); every distinct (exception, raising frame) of the tree is followed up
         seen = set()
         for d in details:
-            sig = tree_signature(t, d)
-            if sig in seen:
+            key = tree_key(d)
+            if key in seen:
                 continue
-            seen.add(sig)
-            count[sig] = count.get(sig, 0) + 1
-            if sig not in open_cases or G.size(t) < G.size(open_cases[sig][0]):
-                open_cases[sig] = (t, d["W"], d)
+            seen.add(key)
+            count[key] = count.get(key, 0) + 1
+            if key not in open_cases or G.size(t) < G.size(open_cases[key][0]):
+                open_cases[key] = (t, d["W"], d)
     chk.notes["tree_kinds"] = kinds
     # delta debugging; each round is one TLC batch of reductions of every open case, rendered at the failing width only
-    for _ in range(chk.pick(12, 30)):
+    for _ in range(chk.pick(10, 30)):
         cands = []
-        for sig, (t, W, d) in open_cases.items():
-            for c in G.reductions(t)[:50]:
-                cands.append((sig, c, W))
+        for key, (t, W, d) in open_cases.items():
+            for c in G.reductions(t)[:40]:
+                cands.append((key, c, W))
         if not cands:
             break
         res = run_trees([(c, [W]) for _, c, W in cands])
         vs = judge(chk, tables, [r for r, _ in res], "M3-minimise")
         best = {}
-        for (sig, c, W), (rec, details), v in zip(cands, res, vs):
+        for (key, c, W), (rec, details), v in zip(cands, res, vs):
             if v == "ok":
                 continue
             for d in details:
-                if tree_signature(c, d) == sig and (sig not in best or G.size(c) < G.size(best[sig][0])):
-                    best[sig] = (c, W, d)
+                if tree_key(d) == key and (key not in best or G.size(c) < G.size(best[key][0])):
+                    best[key] = (c, W, d)
         if not best:
             break
         open_cases.update(best)
-    for sig, (t, W, d) in sorted(open_cases.items()):
-        for _ in range(count[sig]):
-            chk.reject(sig, "%s at W=%d: %s (line %s); minimal tree %s" % (d["op"], W, d["msg"], d.get("line"), G.shape(t)[:300]),
+    for key, (t, W, d) in sorted(open_cases.items()):
+        for _ in range(count[key]):
+            chk.reject(tree_signature(t, d), "%s at W=%d: %s (line %s); minimal tree %s" % (d["op"], W, d["msg"], d.get("line"), G.shape(t)[:300]),
                        dict(kind="tree", tree=t, widths=[W]))
     chk.mark("minimise-trees")
     if trees:
